@@ -157,7 +157,7 @@ package tokenizers
 //@   ensures[C03] result != nil ==> allocated(result)
 //@   ensures[C03] old(c.NextTokenValue) == nil && result != nil && result.typ != Eof ==> cur(c.Scanner) > old(cur(c.Scanner))
 //@   ensures[C03] old(c.NextTokenValue) == nil && result != nil && result.typ == Eof ==> old(c.LastTokenType) != Eof && c.LastTokenType == Eof
-//@   ensures[C03] old(c.NextTokenValue) != nil ==> result == old(c.NextTokenValue) && c.LastTokenType == old(c.LastTokenType)
+//@   ensures[C03,C05] old(c.NextTokenValue) != nil ==> result == old(c.NextTokenValue) && c.LastTokenType == old(c.LastTokenType)
 //@   ensures[C03] old(c.NextTokenValue) == nil && result == nil && c.Scanner != nil ==> c.LastTokenType == Eof
 //@   assigns c.NextTokenValue, c.LastTokenType, sc(c.Scanner).position, sc(c.Scanner).line, sc(c.Scanner).column, any(tokenizers.MustacheTokenizer).special
 //@   nopanic
@@ -183,4 +183,21 @@ package tokenizers
 //@   requires ovOK(c) && c.mp != nil && mapInv(c.mp) && (c.decodeStrings ==> c.quoteState != nil)
 //@   ensures[C03] forall i int :: 0 <= i && i < len(result) ==> result[i] != nil && allocated(result[i])
 //@   ensures[C03] fresh(result)
+//@   nopanic
+
+// ---- per-run reading state is reset, not inherited; asking for a token twice reads once (C05) --------------------
+//@ func (c *AbstractTokenizer) SetReader
+//@   requires c != nil
+//@   ensures[C05] c.Scanner == value && c.NextTokenValue == nil && c.LastTokenType == Unknown
+//@   assigns c.Scanner, c.NextTokenValue, c.LastTokenType
+//@   nopanic
+// "nor on how often the presence of a next token was queried before fetching it": the first query reads one token and
+// keeps it; further queries change nothing; NextToken hands out the kept token
+//@ func (c *AbstractTokenizer) HasNextToken
+//@   requires ovOK(c) && tokInv(c) && (c.NextTokenValue != nil ==> allocated(c.NextTokenValue))
+//@   ensures[C05] result == (c.NextTokenValue != nil) && tokInv(c) && ovOK(c) && c.Scanner == old(c.Scanner)
+//@   ensures[C05] old(c.NextTokenValue) != nil ==> c.NextTokenValue == old(c.NextTokenValue) && c.LastTokenType == old(c.LastTokenType) &&
+//@       (c.Scanner != nil ==> sc(c.Scanner).position == old(sc(c.Scanner).position))
+//@   ensures[C05] c.NextTokenValue != nil ==> allocated(c.NextTokenValue)
+//@   assigns c.NextTokenValue, c.LastTokenType, sc(c.Scanner).position, sc(c.Scanner).line, sc(c.Scanner).column, any(tokenizers.MustacheTokenizer).special
 //@   nopanic
